@@ -1,10 +1,12 @@
 """C15 — binary, bit, word, DNS and base-85 encodings are faithful and invertible.
 
 Ops (Driver/C15.lean): c15_enc fam v ; c15_obj fam v sep ; c15_dec kind fam payload ;
-c15_valid kind fam payload ; c15_b85e v ; c15_b85d s.
+c15_valid kind fam payload ; c15_b85e v ; c15_b85d s ; c15_b85t s (the decoder's text).
+v of c15_enc and the words of c15_dec / c15_valid are signed.
 Family token: 4 | 6 | 48:<dialect> | 64:<dialect> | G:<ws>:<nw>:<hex sep> (generic codecs of
 netaddr.strategy); dialect = built-in class name or D,ws,nw,<hex sep>,pad,U|L (user subclass)."""
 import ipaddress
+import socket
 
 from common import Case, W, value_classes, rand_value, hexs, plist, tf
 import common
@@ -17,10 +19,12 @@ from netaddr.ip import rfc1924
 ID = 'C15'
 RULE = ('families 4, 6, every built-in EUI-48/EUI-64 dialect, user-subclass dialects and generic (word_size, '
         'num_words, separator) triples x structured value classes (boundaries, aligned+-1, harvested literals, '
-        'random, and the out-of-range values 2^w, 2^w+1): strategy-level and object-level encoders; decoders on every '
+        'random, the out-of-range values 2^w, 2^w+1 and NEGATIVE ints): strategy-level and object-level encoders; decoders on every '
         'encoder output and on structured malformations of it (length +-1, digit 2 / sign / space / underscore / '
-        'newline, separator moved or doubled, word = 2^ws, word count +-1, byte count +-1, value 2^w, 0b-prefix '
-        'variants, base-85 characters outside the alphabet, base-85 numerals >= 2^128). non-trivial = distinct case '
+        'newline, separator moved or doubled, word = 2^ws, negative word, word count +-1, byte count +-1, value 2^w, 0b-prefix '
+        'variants, base-85 characters outside the alphabet, base-85 numerals >= 2^128); separators of the generic triples '
+        'include multi-character ones, ones mixing binary digits with another character, and (replace() semantics only) '
+        'all-binary ones; base85_to_ipv6 is compared as text too. non-trivial = distinct case '
         'whose implementation output is not an error')
 
 MODS = {4: ipv4, 6: ipv6, 48: eui48, 64: eui64}
@@ -37,7 +41,11 @@ D48 = ['mac_eui48', 'mac_unix', 'mac_unix_expanded', 'mac_cisco', 'mac_bare', 'm
 D64 = ['eui64_base', 'eui64_unix', 'eui64_unix_expanded', 'eui64_cisco', 'eui64_bare']
 USER48 = ['D,8,6,5f,2,L', 'D,16,3,3a,4,U', 'D,12,4,2e,3,L']
 USER64 = ['D,8,8,20,2,U', 'D,32,2,2d,8,L']
-GENERIC = [(32, 4, ''), (4, 8, '.'), (8, 4, '::'), (1, 7, '-'), (16, 8, ' '), (24, 2, ''), (5, 3, ':'), (64, 1, '.')]
+GENERIC = [(32, 4, ''), (4, 8, '.'), (8, 4, '::'), (1, 7, '-'), (16, 8, ' '), (24, 2, ''), (5, 3, ':'), (64, 1, '.'),
+           # separators mixing binary digits with one other character (round trip proved: bits_roundtrip_anysep)
+           (4, 4, '0.1'), (3, 3, '.0'), (2, 4, '1:'), (8, 2, '-=-'),
+           # all-binary separators: outside every dialect; they only exercise str.replace (overlapping occurrences)
+           (2, 2, '010'), (1, 2, '1'), (3, 2, '00')]
 # RFC 1924 section 4.2: '0'..'9', 'A'..'Z', 'a'..'z', then these 23 characters
 B85 = ('0123456789' + 'ABCDEFGHIJKLMNOPQRSTUVWXYZ' + 'abcdefghijklmnopqrstuvwxyz' + '!#$%&()*+-;<=>?@^_`{|}~')
 
@@ -144,6 +152,18 @@ def corpus():
         out.append(Case('c15_valid bits 4 %s' % hexs(s), 'corpus/bits', ('valid', 'bits', '4', s)))
     out.append(Case('c15_b85e %d' % 0x108000000000000000080800200c417a, 'corpus/b85', ('b85e', 0x108000000000000000080800200c417a)))
     out.append(Case('c15_b85d %s' % hexs('4)+k&C#VzJ4br>0wv%Yp'), 'corpus/b85', ('b85d', '4)+k&C#VzJ4br>0wv%Yp')))
+    out.append(Case('c15_b85t %s' % hexs('4)+k&C#VzJ4br>0wv%Yp'), 'corpus/b85', ('b85t', '4)+k&C#VzJ4br>0wv%Yp')))
+    # negative ints / words (audit round): every guard's `0 <=` half; int_to_bin(-5) is '-0b101' (no sign test)
+    for fam in ('4', '6', '48:mac_eui48', '64:eui64_base', 'G:8:4:2e'):
+        for v in (-1, -5, -(1 << 32), -(1 << 48)):
+            out.append(Case('c15_enc %s %d' % (fam, v), 'corpus/negative', ('enc', fam, v)))
+    for fam, w in (('4', (192, 0, 2, -1)), ('4', (0, 0, 0, -256)), ('6', (0, 0, 0, 0, 0, 0, 0, -1)), ('G:8:4:2e', (-1, 0, 0, 0))):
+        out.append(Case('c15_dec words %s %s' % (fam, fwords(w)), 'corpus/negative', ('dec', 'words', fam, w)))
+        out.append(Case('c15_valid words %s %s' % (fam, fwords(w)), 'corpus/negative', ('valid', 'words', fam, w)))
+    # all-binary separator: bits_to_int(int_to_bits(4, 2, 2, '010'), 4, '010') == 8 (theorem bits_roundtrip_needs_nonbinary_sep)
+    out.append(Case('c15_enc G:2:2:303130 4', 'corpus/binsep', ('enc', 'G:2:2:303130', 4)))
+    out.append(Case('c15_dec bits G:2:2:303130 %s' % hexs('0101000'), 'corpus/binsep', ('dec', 'bits', 'G:2:2:303130', '0101000')))
+    out.append(Case('c15_dec bits G:1:2:31 %s' % hexs('110'), 'corpus/binsep', ('dec', 'bits', 'G:1:2:31', '110')))
     return out
 
 
@@ -190,10 +210,16 @@ def _dec_cases(rng, fam, v, mult):
 
     words = ref_words(v, ws, nw)
     add('words', tuple(words), 'ok')
-    r = rng.randrange(6)
+    r = rng.randrange(9)
     wl = list(words)
     i = rng.randrange(nw)
-    if r == 0:
+    if r == 6:
+        wl[i] = -1
+    elif r == 7:
+        wl[i] = -wl[i] - rng.randrange(2)
+    elif r == 8:
+        wl[i] = -(1 << ws)
+    elif r == 0:
         wl[i] = 1 << ws
     elif r == 1:
         wl[i] = (1 << ws) + rng.randrange(1, 4)
@@ -252,6 +278,10 @@ def generate(rng, tier):
                 cases.extend(_dec_cases(rng, fam, v, mult))
         for v in (m + 1, m + 2, m + rng.randrange(3, 1 << 20), (m + 1) << rng.randrange(1, 9)):
             cases.append(Case('c15_enc %s %d' % (fam, v), 'enc/range', ('enc', fam, v)))
+        # negative ints: the `0 <=` half of every guard
+        for v in (-1, -2, -m, -(m + 1), -(m + 2), -(1 << (width - 1)), -((1 << (width - 1)) - 1), -(1 << 32), -(1 << 32) - 1,
+                  -rng.randrange(1, m + 2), -rng.randrange(1, 1 << 16)):
+            cases.append(Case('c15_enc %s %d' % (fam, v), 'enc/negative', ('enc', fam, v)))
     # base 85
     top = (1 << 128) - 1
     for v in value_classes(rng, 128, n_random=20 * mult) + [85 ** k + d for k in range(0, 20) for d in (-1, 0, 1)]:
@@ -259,15 +289,23 @@ def generate(rng, tier):
         cases.append(Case('c15_b85e %d' % v, 'b85/enc', ('b85e', v)))
         s = ref_b85(v)
         cases.append(Case('c15_b85d %s' % hexs(s), 'b85/dec-ok', ('b85d', s)))
+        cases.append(Case('c15_b85t %s' % hexs(s), 'b85/text-ok', ('b85t', s)))
         if rng.random() < 0.6:
             t = _mutate_str(rng, s, ' "\',./:[\\]' + B85)
             cases.append(Case('c15_b85d %s' % hexs(t), 'b85/dec-mut', ('b85d', t)))
+            cases.append(Case('c15_b85t %s' % hexs(t), 'b85/text-mut', ('b85t', t)))
     for d in list(range(0, 6)) + [rng.randrange(1 << 64) for _ in range(4 * mult)]:
         x = top + 1 + d
         if x < 85 ** 20:
             cases.append(Case('c15_b85d %s' % hexs(ref_b85(x)), 'b85/dec-2^128', ('b85d', ref_b85(x))))
+            cases.append(Case('c15_b85t %s' % hexs(ref_b85(x)), 'b85/text-2^128', ('b85t', ref_b85(x))))
     for s in ('~' * 20, '0' * 19, '0' * 21, '', '0' * 19 + ' ', '=r54lj&NUUO~Hi%c2ym0', '=r54lj&NUUO~Hi%c2ym1', '=r54lj&NUUO~Hi%c2yl~'):
         cases.append(Case('c15_b85d %s' % hexs(s), 'b85/dec-fixed', ('b85d', s)))
+        cases.append(Case('c15_b85t %s' % hexs(s), 'b85/text-fixed', ('b85t', s)))
+    # texts with an IPv4 tail / a zero run at either end / no zero run
+    for v in (0, 1, 0xffff01020304, 0x01020304, 0xffff << 112, (1 << 128) - 1, 0x00010002000300040005000600070008,
+              0x20010db8000000000000000000000001, 1 << 127, 0xffff00000000, 0x0001 << 16):
+        cases.append(Case('c15_b85t %s' % hexs(ref_b85(v)), 'b85/text-shapes', ('b85t', ref_b85(v))))
     # oracle-only: digits that int() would read but the numeral's base does not contain
     z4 = ref_bits(0, 8, 4, '.')
     for t in ('\u0661' + z4[1:], '\uff11' + z4[1:], z4[:-1] + '\u00b9'):
@@ -284,8 +322,15 @@ def generate(rng, tier):
 def _try(f, show):
     try:
         return show(f())
-    except Exception:
-        return '!'
+    except Exception as e:
+        # the exception class as the model's Err tag (struct.error, OverflowError ... = 'other'): compared by the
+        # correspondence stage only; the oracle speaks of "raises" and drops the class (_plain)
+        n = common.errname(e)
+        return '!' + ('other' if n.startswith('other:') else n)
+
+
+def _plain(got):
+    return ' '.join('!' if f.startswith('!') else f for f in got.split(' '))
 
 
 def impl(c):
@@ -347,6 +392,8 @@ def impl(c):
     if a[0] == 'b85d':
         # the decoder returns the address as text; read it back with the standard library
         return _try(lambda: rfc1924.base85_to_ipv6(a[1]), lambda s: str(int(ipaddress.IPv6Address(s))))
+    if a[0] == 'b85t':
+        return _try(lambda: rfc1924.base85_to_ipv6(a[1]), hexs)
     raise ValueError(a)
 
 
@@ -407,14 +454,17 @@ def expect(a):
         return '!' if val is None else str(val)
     if a[0] == 'b85e':
         return hexs(ref_b85(a[1]))
-    if a[0] == 'b85d':
+    if a[0] in ('b85d', 'b85t'):
         s = a[1]
         if len(s) == 20 and all(ch in B85 for ch in s):
             v = 0
             for ch in s:
                 v = v * 85 + B85.index(ch)
             if v < (1 << 128):
-                return str(v)
+                if a[0] == 'b85d':
+                    return str(v)
+                # the platform's own compact spelling of the 16 bytes (never netaddr's)
+                return hexs(socket.inet_ntop(socket.AF_INET6, v.to_bytes(16, 'big')))
         return '!'
     raise ValueError(a)
 
@@ -423,8 +473,25 @@ def oracle(c, got):
     if c.platform:
         return None
     exp = expect(c.args)
+    got = _plain(got)
+    if c.args[0] == 'enc' and c.args[2] < 0:
+        # a negative int is no value of any family: every encoder with a range test must raise.  int_to_bin has no
+        # sign test; the property leaves its result open as long as it is not a '0b' spelling a decoder would read
+        g, e = got.split(' '), exp.split(' ')
+        if len(g) == 5 and g[3] != '!':
+            width = fam_info(c.args[1])[4]
+            if g[3] != hexs('-0b' + format(-c.args[2], 'b')) or len(format(-c.args[2], 'b')) + 1 > width:
+                return 'int_to_bin(%d) gave %s: neither an error nor the signed spelling within the width' % (c.args[2], g[3])
+            g[3] = '!'
+        if g != e:
+            return '%s gave %s, the encoding rules give %s' % (c.args[0], got, exp)
+        return None
     if got != exp:
         return '%s gave %s, the encoding rules give %s' % (c.args[0], got, exp)
+    if c.args[0] == 'b85t' and not got.startswith('!'):
+        # cross-check: the text read back by the standard library is the numeral's value
+        if str(int(ipaddress.IPv6Address(bytes.fromhex(got[2:]).decode()))) != expect(('b85d', c.args[1])):
+            return 'base85_to_ipv6 text %s does not read back as the numeral value' % got
     if c.args[0] == 'obj' and c.args[1] in ('4', '6') and c.args[3] is None:
         # cross-check of the reference itself against the standard library
         ip = ipaddress.IPv6Address(c.args[2]) if c.args[1] == '6' else ipaddress.IPv4Address(c.args[2])
@@ -446,4 +513,4 @@ def repro(c):
         return 'netaddr.strategy module of family %s: %s(%r)' % (a[2], (name + '_to_int') if a[0] == 'dec' else ('valid_' + name), a[3])
     if a[0] == 'b85e':
         return 'from netaddr.ip.rfc1924 import *; ipv6_to_base85(IPAddress(%d, 6))' % a[1]
-    return 'from netaddr.ip.rfc1924 import *; base85_to_ipv6(%r)' % (a[1],)
+    return 'from netaddr.ip.rfc1924 import *; base85_to_ipv6(%r)' % (a[1],)  # b85d: its value, b85t: its text
